@@ -20,10 +20,11 @@ import (
 	"verif/internal/hx"
 )
 
-// pgMaxDeclared: declared lengths above this are clamped by the harness before the decoder sees them (memory
-// safety and speed of the harness itself: the pinned readers allocate by the declared length, and 96 MiB
-// already exceeds the bound; the readers accept any 32-bit value).
-const pgMaxDeclared = 0x06000000
+// pgMaxDeclared: declared lengths above this are clamped by the harness before the decoder sees them. On the pinned
+// tree the readers allocated by the declared length (fixed since: they grow with the data that really arrives), and
+// the clamp protected the harness. It now lets every 32-bit value through - lengths with the top bit set included,
+// which a signed conversion would turn negative - and stays only as the one place to bound them again if needed.
+const pgMaxDeclared = 0xffffffff
 
 func pgEnc(m interface{ Encode([]byte) ([]byte, error) }) []byte {
 	b, err := m.Encode(nil)
